@@ -268,9 +268,11 @@ func (svc *service) stop() {
 		svc.sessMgr.Del(svc.sess.ID())
 	}
 
-	svc.conn = nil
-	svc.in = nil
-	svc.out = nil
+	// The connection and the buffers are closed at this point but stay
+	// referenced: other connections' processors may still hold this
+	// service's delivery callback (obtained before the unsubscribe above) and
+	// read these fields without synchronisation; they then get io.EOF from
+	// the closed buffer.
 }
 
 func (svc *service) publish(msg *message.PublishMessage, onComplete OnCompleteFunc) error {
